@@ -266,6 +266,18 @@ structure DState where
   lastTag : Option Tag := none
   opNo : Nat := 0
   inCase : Bool := false
+  ticker : Bool := false      -- kind p1t: the 1 s write ticker is running
+
+/-- the write ticker has run: every treasure waiting for the writer is written (its object gets a
+    file pointer), exactly what close does to the disk image, without closing -/
+def tick (cfg : Cfg) (s : State) : State :=
+  match s.live with
+  | none => s
+  | some i =>
+    { s with live := some { i with
+        disk := Model.flushDisk cfg.encoding i.recs i.waiting i.disk,
+        filed := i.filed ++ (i.waiting.filter fun k => (AL.find k i.recs).isSome && !i.filed.contains k),
+        waiting := [] } }
 
 def kindOf (s : String) : Kind := if s.startsWith "mem" then .mem else if s.startsWith "p0" then .p0 else .p1
 
@@ -297,13 +309,16 @@ def stepLine (d : DState) (line : String) : DState × String :=
   match f with
   | "case" :: _ :: rest =>
     let kind := (rest.filterMap fun a => match a.splitOn "=" with | ["kind", v] => some (kindOf v) | _ => none).headD .mem
-    ({ d with s := { kind := kind }, ck := {}, lastTag := none, opNo := 0, inCase := true }, line)
+    ({ d with s := { kind := kind }, ck := {}, lastTag := none, opNo := 0, inCase := true, ticker := rest.contains "kind=p1t" }, line)
   | _ =>
     if !d.inCase then (d, "no-case")
     else match f with
     | ["wait", ms] =>
       if d.s.dead then (d, "skip")
-      else ({ d with ck := { d.ck with now := d.ck.now + (ms.toInt?.getD 0) * 1000000 } }, "ok")
+      else
+        let n := ms.toInt?.getD 0
+        let s := if d.ticker && n ≥ 2500 then tick d.cfg d.s else d.s
+        ({ d with s := s, ck := { d.ck with now := d.ck.now + n * 1000000 } }, "ok")
     | [verb] =>
       if verb == "closeidle" || verb == "restart" || verb == "close" then
         if d.s.dead then (d, "skip")
